@@ -298,7 +298,17 @@ func (h *harness) exec(line string) string {
 		}
 		cmd := &command.Command{Type: w[1], Recipient: unhex(w[2]), Fee: unhex(w[4])}
 		amt, _ := new(big.Int).SetString(w[5], 10)
-		err := cmd.ValidateAndComplete(sdk.NewIntFromBigInt(amt))
+		var err error
+		panicked := func() (p interface{}) {
+			defer func() { p = recover() }()
+			err = cmd.ValidateAndComplete(sdk.NewIntFromBigInt(amt))
+			return nil
+		}()
+		if panicked != nil {
+			// the connector's loops call this for every deposit they see: a panic stops the connector
+			h.report("command-validation-panics", fmt.Sprintf("type %s recipient %q fee %q amount %s: %v", w[1], unhex(w[2]), unhex(w[4]), w[5], panicked))
+			return "panic"
+		}
 		h.monitorCmd2(w, cmd, err == nil)
 		if err == nil {
 			return "valid " + hex.EncodeToString([]byte(cmd.Recipient))
@@ -606,7 +616,18 @@ func genHistory(r *rand.Rand, h *harness, nops int, do func(string) string) {
 			fees2 := []string{"0", "1", "-5", "-1", "98", "99", "100", "990", "989", "abc", "", "+5", "007", "1_0", " 5", "5 ", "0x10", "1e3", "٣", "--1", "-", "+", "9.5",
 				"115792089237316195423570985008687907853269984665640564039457584007913129639935", "115792089237316195423570985008687907853269984665640564039457584007913129639936"}
 			amts2 := append(amts, "115792089237316195423570985008687907853269984665640564039457584007913129639935", "200")
-			do(fmt.Sprintf("m_cmd2 %s %s %d %s %s", nzt(typ), hx(rec), rok, hx(fees2[r.Intn(len(fees2))]), amts2[r.Intn(len(amts2))]))
+			amtS, feeS := amts2[r.Intn(len(amts2))], fees2[r.Intn(len(fees2))]
+			if r.Intn(3) == 0 {
+				// around the bound: the fee must stay below the amount less one per cent (truncating division)
+				a, _ := new(big.Int).SetString(amtS, 10)
+				if r.Intn(2) == 0 {
+					a = big.NewInt(int64(1 + r.Intn(100000)))
+					amtS = a.String()
+				}
+				lim := new(big.Int).Sub(a, new(big.Int).Quo(a, big.NewInt(100)))
+				feeS = new(big.Int).Add(lim, big.NewInt(int64(r.Intn(3)-1))).String()
+			}
+			do(fmt.Sprintf("m_cmd2 %s %s %d %s %s", nzt(typ), hx(rec), rok, hx(feeS), amtS))
 		}
 	}
 	do("m_resync 0")
